@@ -1,5 +1,5 @@
 // auto-generated: "lalrpop 0.23.1"
-// sha3: d054933487196a2f10bae0ca9eebb8006cac09f81296d23c6be11122302f1694
+// sha3: dfeead3d080dcddb34ba84fefe522f19713e83330188dcdebccdfc44924fa540
 use crate::rt::*;
 #[allow(unused_extern_crates)]
 extern crate lalrpop_util as __lalrpop_util;
@@ -620,23 +620,21 @@ fn __action1<
 fn __action2<
 >(
     (_, l, _): (i64, i64, i64),
-    (_, pR0, _): (i64, i64, i64),
     (_, r, _): (i64, i64, i64),
 ) -> Tree
 {
-    { probe("A#0", 0, 'R', pR0); node("A#0", l, r, vec![]) }
+    node("A#0", l, r, vec![])
 }
 
 #[allow(clippy::too_many_arguments, clippy::needless_lifetimes, clippy::just_underscores_and_digits, clippy::extra_unused_type_parameters)]
 fn __action3<
 >(
     (_, l, _): (i64, i64, i64),
-    (_, pR0, _): (i64, i64, i64),
     (_, c0, _): (i64, Tok, i64),
     (_, r, _): (i64, i64, i64),
 ) -> Tree
 {
-    { probe("A#1", 0, 'R', pR0); node("A#1", l, r, vec![Tree::from(c0)]) }
+    node("A#1", l, r, vec![Tree::from(c0)])
 }
 
 #[allow(clippy::too_many_arguments, clippy::needless_lifetimes, clippy::just_underscores_and_digits, clippy::extra_unused_type_parameters)]
@@ -706,7 +704,6 @@ fn __action9<
 fn __action10<
 >(
     __0: (i64, i64, i64),
-    __1: (i64, i64, i64),
 ) -> Tree
 {
     let __start0 = __0.0.clone();
@@ -719,7 +716,6 @@ fn __action10<
     __action2(
         __temp0,
         __0,
-        __1,
     )
 }
 
@@ -727,9 +723,8 @@ fn __action10<
     clippy::just_underscores_and_digits, clippy::clone_on_copy, clippy::unit_arg)]
 fn __action11<
 >(
-    __0: (i64, i64, i64),
-    __1: (i64, Tok, i64),
-    __2: (i64, i64, i64),
+    __0: (i64, Tok, i64),
+    __1: (i64, i64, i64),
 ) -> Tree
 {
     let __start0 = __0.0.clone();
@@ -743,7 +738,6 @@ fn __action11<
         __temp0,
         __0,
         __1,
-        __2,
     )
 }
 
@@ -869,21 +863,13 @@ fn __action17<
 {
     let __start0 = __lookbehind.clone();
     let __end0 = __lookahead.clone();
-    let __start1 = __lookbehind.clone();
-    let __end1 = __lookahead.clone();
     let __temp0 = __action8(
         &__start0,
         &__end0,
     );
     let __temp0 = (__start0, __temp0, __end0);
-    let __temp1 = __action8(
-        &__start1,
-        &__end1,
-    );
-    let __temp1 = (__start1, __temp1, __end1);
     __action10(
         __temp0,
-        __temp1,
     )
 }
 
@@ -894,24 +880,16 @@ fn __action18<
     __0: (i64, Tok, i64),
 ) -> Tree
 {
-    let __start0 = __0.0.clone();
-    let __end0 = __0.0.clone();
-    let __start1 = __0.2.clone();
-    let __end1 = __0.2.clone();
+    let __start0 = __0.2.clone();
+    let __end0 = __0.2.clone();
     let __temp0 = __action8(
         &__start0,
         &__end0,
     );
     let __temp0 = (__start0, __temp0, __end0);
-    let __temp1 = __action8(
-        &__start1,
-        &__end1,
-    );
-    let __temp1 = (__start1, __temp1, __end1);
     __action11(
-        __temp0,
         __0,
-        __temp1,
+        __temp0,
     )
 }
 
